@@ -43,6 +43,7 @@ REQUIRED_THEOREMS = [
     "C05_overwrite", "C05_run_law", "C05_batch_law", "C05_batch_law_purif",
     "C05_overwrite_flag", "C05_overwrite_any_form",   # round 4: `overwrite` as the object the caller passed
     "C05_call_forms", "C05_vector_form_is_row", "C05_call_forms_ha",   # extension round 2: auto_unsqueeze_args inside the model
+    "C05_sample_out_identity", "C05_sample_step_law", "C05_gibbs_step_buffers",   # extension round 2: one-step samplers with their out= buffer
 ]
 EXTRA_TRUSTED = [
     "torch.bernoulli(p) draws independent Bernoulli(p) bits (the replay replaces it by a recorder; the thorough tier "
@@ -58,7 +59,8 @@ TH = {
     "buf": "C05_overwrite, C05_overwrite_flag (the object passed as `overwrite` counts by its truth value)",
     "cont": "C05_continue, C05_continue_batch",
 }
-RULE = ("CALL FORMS (extension round 2): per run 4 (thorough: 10) models (plain RBM of a positive state / purification RBM, scale in {0.1,1,3}) x the decorated public conditionals "
+RULE = ("ONE-STEP SAMPLERS (extension round 2): for every model of the run, sample_h_given_v / sample_v_given_h / sample_a_given_v / sample_v_given_ha called directly on B = 1..3 rows (0/1 rows, or real-valued rows), with a pre-filled out= buffer or without, the REAL torch.bernoulli wrapped in-process: probabilities presented and the returned 0/1 sample against QV.sampleCall replayed on the recorded draws (property level), `out` is the returned object and holds the draw afterwards (aux). "
+        "CALL FORMS (extension round 2): per run 4 (thorough: 10) models (plain RBM of a positive state / purification RBM, scale in {0.1,1,3}) x the decorated public conditionals "
         "prob_h_given_v / prob_v_given_h / prob_a_given_v / prob_v_given_ha and PurificationRBM.effective_energy(v[, a]) on random 0/1 tensors in the forms vector, batch (B = 1, 2, 3), "
         "rank-3, and for the two-operand methods every mixture (1-D h with batched a: refused unless one row; batched h with 1-D a; one-row batch with 1-D a: axis lost) "
         "against the model of auto_unsqueeze_args (accepted-or-refused, exact shape, entries; vector / equal-batch forms property level, rank-3 and mixed forms aux); "
@@ -1171,6 +1173,105 @@ def gen_callforms(ctx, thorough):
                 yield {**base, "fn": "p_energy", "x": T(xl, n), "y": T(yl, a)}
 
 
+# ------------------------------------------------------------------ part (f): the public one-step samplers and their out= buffer
+class RealBernoulli:
+    """records the probabilities handed to the REAL torch.bernoulli and what it returned (its own out= semantics untouched)"""
+
+    def __enter__(self):
+        self.orig = torch.bernoulli
+        self.calls = []
+
+        def bern(p, *args, **kw):
+            pc = p.detach().clone()
+            res = self.orig(p, *args, **kw)
+            self.calls.append({"p": pc.to(torch.double).numpy().copy(), "draw": res.detach().to(torch.double).numpy().copy(), "out": kw.get("out") is not None})
+            return res
+
+        torch.bernoulli = bern
+        return self
+
+    def __exit__(self, *exc):
+        torch.bernoulli = self.orig
+        return False
+
+
+SSTEP_FNS = {"pos": ["h_given_v", "v_given_h"], "cplx": ["h_given_v", "v_given_h"], "dens": ["h_given_v", "a_given_v", "v_given_ha"]}
+
+
+def sstep_case(ctx, case):
+    """sample_h_given_v / sample_v_given_h / sample_a_given_v / sample_v_given_ha called directly, with and without out="""
+    kind, n, h, a, am, fn, B, with_out = (case[k] for k in ("kind", "n", "h", "a", "am", "fn", "B", "with_out"))
+    st = build(kind, n, h, a, am, case["ph"], case.get("gpuf"))
+    rbm = st.rbm_am
+    rs = np.random.RandomState(case["xseed"])
+    dim_in = {"h_given_v": n, "a_given_v": n, "v_given_h": h, "v_given_ha": h}[fn]
+    m = {"h_given_v": h, "a_given_v": a, "v_given_h": n, "v_given_ha": n}[fn]
+
+    def rows(d):
+        r = rs.randint(0, 2, size=(B, d)).astype(np.float64)
+        return r if case["bits"] else r + rs.uniform(-0.5, 0.5, size=(B, d))
+
+    x = rows(dim_in)
+    y = rows(a) if fn == "v_given_ha" else None
+    garbage = 42.0 + rs.uniform(0, 1, size=(B, m))
+    out = torch.from_numpy(garbage.copy()) if with_out else None
+    torch.manual_seed(case["xseed"])
+    f = getattr(rbm, "sample_" + fn)
+    targs = [torch.from_numpy(x.copy())] + ([torch.from_numpy(y.copy())] if y is not None else [])
+    with RealBernoulli() as rec:
+        res = f(*targs, out=out) if with_out else f(*targs)
+    ctx.count(f"sstep:{mkind(kind)}/{fn}/out={'given' if with_out else 'none'}/{'bits' if case['bits'] else 'real'}")
+    tag = f"sample_{fn}({'out=buf' if with_out else 'no out'})"
+    sig = f"{kind}/sstep/{fn}"
+    resv = res.detach().to(torch.double).numpy()
+    ok_calls = len(rec.calls) == 1 and rec.calls[0]["p"].shape == (B, m)
+    ctx.oracle(f"{tag}: exactly one bernoulli call on a B x m tensor", ok_calls, case, sig=sig + "/calls", theorem="C05_sample_out_identity")
+    ctx.oracle(f"{tag}: the returned sample is a 0/1 array of shape B x m", tuple(resv.shape) == (B, m) and bool(np.all((resv == 0) | (resv == 1))), case,
+               detail={"result": resv.tolist()}, sig=sig + "/values01", theorem="C05_sample_out_identity, C05_values_shape")
+    inputs_ok = all(np.array_equal(t.numpy(), ref) for t, ref in zip(targs, [x] + ([y] if y is not None else [])))
+    ctx.oracle(f"{tag}: the conditioning state is not modified", inputs_ok, case, sig=sig + "/inputs")
+    if not ok_calls:
+        return
+    P, D = rec.calls[0]["p"], rec.calls[0]["draw"]
+    # the property's "drawn from its exact conditional": the probabilities presented are the public conditional of the very inputs
+    pub = getattr(rbm, "prob_" + fn)(*[torch.from_numpy(z.copy()) for z in [x] + ([y] if y is not None else [])]).detach().numpy()
+    ctx.oracle(f"{tag}: probabilities presented to the sampler == prob_{fn} of the inputs", bool(np.allclose(P, pub, rtol=1e-12, atol=1e-15)), case,
+               sig=sig + "/presented", theorem="C05_sample_step_law")
+    if ctx.driver is not None:
+        for b in range(B):
+            req = {"kind": mkind(kind), "fn": fn, "n": n, "h": h, "a": a, "p": qc.pbits(am), "x": bits(x[b]), "fresh": 10,
+                   "draws": [int(t) for t in D[b]], "out": {"id": 1, "data": bits(garbage[b])} if with_out else None}
+            if y is not None:
+                req["y"] = bits(y[b])
+            mo = ctx.driver.call("c05.sample_step", **req)
+            cs = dict(case, row=b)
+            if mo.get("short"):
+                ctx.point(f"{tag}: replay consumes the recording", "property", len(req["draws"]), "model needs more draws", cs, exact=True, sig=sig + "/count",
+                          theorem="C05_sample_step_law")
+                continue
+            ctx.point(f"{tag}: probabilities presented", "property", P[b], unbits(mo["probs"]), cs, sig=sig + "/probs", theorem="C05_sample_step_law + " + TH["cond"])
+            ctx.point(f"{tag}: returned sample", "property", bits(resv[b]), mo["result"], cs, exact=True, sig=sig + "/result",
+                      theorem="C05_sample_out_identity, C05_sample_step_law")
+            # the out= buffer contract of the one-step samplers is not in the property text (only gibbs_steps' overwrite is): auxiliary
+            impl_buf = [res is out, bits(out.numpy()[b])] if with_out else [False, None]
+            ctx.point(f"{tag}: `out` is the returned object and holds the 0/1 draw afterwards", "aux", impl_buf,
+                      [mo["out_id"] is not None and mo["result_id"] == mo["out_id"], mo["out"]], cs, exact=True, sig=sig + "/out-identity",
+                      theorem="C05_sample_out_identity, C05_gibbs_step_buffers")
+    ctx.case({"sstep": [kind, n, h, a, fn, B, with_out, case["bits"], case["xseed"]]}, nontrivial=True,
+             sample={"sstep": fn, "kind": kind, "out": with_out, "B": B})
+
+
+def gen_ssteps(ctx, model, thorough):
+    for fn in SSTEP_FNS[model["kind"]]:
+        for with_out in (True, False):
+            if not thorough and ctx.rng.random() < 0.5:
+                continue
+            c = dict(model)
+            c.update({"part": "sstep", "fn": fn, "with_out": with_out, "B": ctx.rng.choice([1, 2, 3]), "bits": ctx.rng.random() < 0.7,
+                      "xseed": ctx.rng.randrange(2 ** 31)})
+            yield c
+
+
 def dispatch(ctx, case):
     """one case; integer options handed over as objects outside every quantifier (np.uint8, 0-d arrays / tensors) and REFUSED by the
     implementation are informational (argforms_a.tolerant, second audit X-1)"""
@@ -1187,6 +1288,8 @@ def _dispatch(ctx, case):
         replay_case(ctx, case)
     elif case["part"] == "history":
         history_case(ctx, case)
+    elif case["part"] == "sstep":
+        sstep_case(ctx, case)
     else:
         stat_case(ctx, case)
 
@@ -1194,7 +1297,9 @@ def _dispatch(ctx, case):
 def run(ctx):
     ctx.rule = RULE
     thorough = ctx.tier == "thorough"
+    models = []
     for idx, model in enumerate(gen_models(ctx, thorough)):
+        models.append(model)
         c = dict(model)
         c.update({"part": "cond", "rseed": ctx.rng.randrange(2 ** 31)})
         # the Float law of the Prog term enumerates 2^(h+a+n) executions per matrix entry: keep it to moderate sizes in the quick tier
@@ -1205,6 +1310,9 @@ def run(ctx):
         dispatch(ctx, gen_history(ctx, model, thorough, idx))
     for cf in gen_callforms(ctx, thorough):   # after the older parts: their seeded streams are unchanged
         dispatch(ctx, cf)
+    for model in models:                      # extension round 2: the public one-step samplers, with and without out=
+        for sc in gen_ssteps(ctx, model, thorough):
+            dispatch(ctx, sc)
     if thorough:
         worst = 0.0
         cnt = 0
@@ -1251,6 +1359,8 @@ def search(ctx):
             for rc in gen_replays(ctx, model, False):
                 dispatch(ctx, rc)
             dispatch(ctx, gen_history(ctx, model, False, idx))
+            for sc in gen_ssteps(ctx, model, True):
+                dispatch(ctx, sc)
     finally:
         ctx.driver = drv
 
